@@ -526,7 +526,7 @@ def base_case(rnd, seed, arm):
 def cases(seed, tier):
     sch = Sched(seed)
     rnd = sch.stream("c08.cases")
-    n_ff, n_crash, n_enum, n_io = (40, 120, 12, 40) if tier == "quick" else (1500, 9000, 500, 2000)
+    n_ff, n_crash, n_enum, n_io = (40, 120, 12, 40) if tier == "quick" else (1200, 8000, 200, 2000)
     out = []
     i = 0
     # canonical enumerated configurations first
